@@ -23,6 +23,7 @@ THEOREMS = [
     "MM.inv_trial_cell",
     "MM.inv_trial_ham",
     "MM.history_restores_any",
+    "MM.history_restores_runs",
     "MM.plain_two_deletions_not_restored",
     "MM.reinsert_delete",
     "MM.delete_after_insert",
@@ -205,5 +206,105 @@ class CollectiveConstraintHistories(Histories):
         return None
 
 
+class RunBoundaries(Histories):
+    """histories that span several run() calls: between two runs the user moves atoms / changes the cell
+    (`atoms.wrap()`, `atoms.positions = …`, `set_cell`), the next run() starts with validate_simulation(), and the first
+    trials of the new run are mostly rejected or vetoed — they must restore the atoms AS THE USER LEFT THEM, not the last
+    accepted state of the previous run (model: `MM.newRun`, theorem `MM.history_restores_runs`)"""
+
+    name = "run-boundaries"
+    ensembles = ["canonical", "isobaric", "hamiltonian", "grand", "canonical"]
+
+    def cases(self, rng, tier):
+        n = 350 if tier == "quick" else 6000
+        for i in range(n):
+            case = machine.gen_case(rng, self.ensembles[i % len(self.ensembles)], tier)
+            nt = len(case["trials"])
+            if nt < 2:
+                continue
+            runs = {}
+            for k in sorted(rng.sample(range(1, nt), min(nt - 1, rng.choice([1, 1, 2, 3])))):
+                ev = {"shift": [[rng.randint(-3, 3) for _ in range(3)] for _ in range(12)], "cell": None}
+                if case["ens"] == "isobaric" and rng.random() < 0.5:
+                    ev["cell"] = [rng.randint(8, 13) for _ in range(3)]
+                runs[str(k)] = ev
+                if rng.random() < 0.75:
+                    case["trials"][k]["verdict"] = False     # the first trial of the new run is rejected
+            # make sure something was accepted in the first run, so that "the last accepted state" differs from the start
+            case["trials"][0]["verdict"] = True
+            case["runs"] = runs
+            yield case
+
+    def real(self, case):
+        import numpy as np
+
+        events = []
+
+        def pre(sim, k, out):
+            ev = case["runs"].get(str(k))
+            if ev is None:
+                return
+            n = len(sim.atoms)
+            shift = np.array([ev["shift"][i % len(ev["shift"])] for i in range(n)], float).reshape(n, 3)
+            new = sim.atoms.get_positions() + shift
+            sim.atoms.positions = new
+            if ev["cell"] is not None:
+                sim.atoms.set_cell(np.diag(np.array(ev["cell"], float)), scale_atoms=False)
+            import warnings
+
+            with warnings.catch_warnings():
+                warnings.simplefilter("ignore")
+                sim.mc.validate_simulation()
+            events.append((len(out["snapshots"]), "U" + sim.snapshot("T")[1:],
+                           [[machine._int(x) for x in p] for p in new], ev["cell"]))
+
+        obs = machine.run_real(case, hooks={"pre": pre})
+        obs.pop("sim")
+        obs["events"] = events
+        self._last_events = events
+        return obs
+
+    def model_lines(self, case):
+        # called right after real(case): the absolute positions of every edit are known (the user's shift is relative)
+        events = getattr(self, "_last_events", [])
+        line = machine.model_line(case)
+        head = line.split(" R ", 1)[0]
+        trials = line.split(" R ", 1)[1].split(" ")
+        evs = {i: (pos, cell) for i, _, pos, cell in events}
+        pieces = []
+        for k, t in enumerate(trials):
+            if k in evs:
+                pos, cell = evs[k]
+                ops = [x for p in pos for x in p] + (list(cell) if cell is not None else [])
+                pieces.append(",".join(["!run", "1", "1" if cell is not None else "-", machine.s_ints(ops), "-", "-"]))
+            pieces.append(t)
+        return [head + " R " + " ".join(pieces)]
+
+    def model_obs(self, case, outs):
+        return {"snapshots": outs[0].split(" | ")}
+
+    def compare(self, case, real, model):
+        if "snapshots" not in real:
+            return [f"real code raised {real.get('exception')}: {real.get('message')}"]
+        ms = model["snapshots"]
+        rs = list(real["snapshots"])
+        for off, (i, snap, _, _) in enumerate(real["events"]):
+            rs.insert(i + off, snap)
+        if "exception" in real:
+            return [f"real code raised {real['exception']} in trial {real.get('exception_at')}: {real['message']}"]
+        for k, (r, m) in enumerate(zip(rs, ms)):
+            if r != m:
+                return [f"event/trial {k}: real  {r}", f"event/trial {k}: model {m}"]
+        if len(rs) != len(ms):
+            return [f"{len(rs)} real snapshots vs {len(ms)} model snapshots"]
+        return []
+
+    def classify(self, case, obs):
+        if "outcomes" not in obs:
+            return "exception"
+        firsts = "".join(obs["outcomes"][int(k)] for k in sorted(case["runs"], key=int) if int(k) < len(obs["outcomes"]))
+        return f"{case['ens']}:first-of-new-run={''.join(sorted(set(firsts)))}" if firsts else None
+
+
 def suites(tier):
-    return [Histories(), CollectiveConstraintHistories()]
+    return [Histories(), CollectiveConstraintHistories(), RunBoundaries()]
